@@ -1910,6 +1910,35 @@ theorem unfarmAndWithdraw_inv {cfg : Cfg} {s s' : State} {app user pool amt x y 
 
 /-! ### every operation keeps the invariant -/
 
+/-- a delivered limit / market order is `placeOrder` with the price and the validation result the model computes -/
+theorem placeOrderMsg_core {cfg : Cfg} {s s' : State} {app user pair : Nat} {typ : OType} {buy : Bool} {od dd : Denom}
+    {msgOffer msgPrice amount : Nat} {lifespan : Int}
+    (h : placeOrderMsg cfg s app user pair typ buy od dd msgOffer msgPrice amount lifespan = some s') :
+    ∃ price ext, placeOrder cfg s app user pair typ buy msgOffer msgPrice price amount lifespan ext = some s' := by
+  unfold placeOrderMsg at h
+  split at h; · cases h
+  split at h; · cases h
+  split at h; · cases h
+  exact ⟨_, _, h⟩
+
+/-- a delivered market-making order is `mmOrder` with the ticks the model computes -/
+theorem mmOrderMsg_core {cfg : Cfg} {s s' : State} {app user pair : Nat} {maxSell minSell sellAmt maxBuy minBuy buyAmt : Nat}
+    {lifespan : Int} (h : mmOrderMsg cfg s app user pair maxSell minSell sellAmt maxBuy minBuy buyAmt lifespan = some s') :
+    ∃ buys sells, mmOrder cfg s app user pair buys sells lifespan true = some s' := by
+  unfold mmOrderMsg at h
+  split at h; · cases h
+  split at h; · cases h
+  split at h; · cases h
+  split at h; · cases h
+  split at h; · cases h
+  split at h; · cases h
+  split at h; · cases h
+  simp only [] at h
+  split at h; · cases h
+  split at h; · cases h
+  split at h; · cases h
+  exact ⟨_, _, h⟩
+
 theorem step_inv {cfg : Cfg} (hc : CfgOk cfg) {s s' : State} {op : Op} (hi : Inv cfg s) (h : step cfg s op = some s') :
     Inv cfg s' := by
   cases op with
@@ -1926,8 +1955,8 @@ theorem step_inv {cfg : Cfg} (hc : CfgOk cfg) {s s' : State} {op : Op} (hi : Inv
     cases hd : withdrawReq cfg s a u p pc e with
     | none => simp [hd] at h
     | some r => obtain ⟨s1, id⟩ := r; simp [hd] at h; subst h; exact withdrawReq_inv hi hd
-  | order a u p t b mo mp pr am l e => exact placeOrder_inv hi h
-  | mmOrder a u p bs ss l e => exact mmOrder_inv hi h
+  | order a u p t b od dd mo mp am l => obtain ⟨_, _, h⟩ := placeOrderMsg_core h; exact placeOrder_inv hi h
+  | mmOrder a u p xs ns sa xb nb ba l => obtain ⟨_, _, h⟩ := mmOrderMsg_core h; exact mmOrder_inv hi h
   | cancel a u p i => exact cancelOrder_inv hi h
   | cancelAll a u ps => exact cancelAll_inv hi h
   | cancelMM a u p => exact cancelMM_inv hi h
